@@ -109,6 +109,7 @@ def programs(tier):
                 progs.append(Program(f"L[['a', 'c', 'd']].{red}(){sel}", [srcL], ordered=False, check_index=True, family="F04", note=f"forms/reduction-labels/{red}", env_globals={"dx": dx}))
         for text in ("L[[]].size", "len(L[[]].index) + L.a.sum()", "L[['a']][[]].index.size + L.a.sum()", "L.a.to_frame().assign(z=L.b).tail(2, compute=False)", "L.add(L.a, axis=0).head(3, compute=False)",
                      "L.sub(L.c, axis=0)[['a']]", "L.a.to_frame().assign(z=L.b)[['z']]", "(lambda X: X[X.b > 1])(L.fillna(0).astype({'b': 'int64'}))",
+                     "(lambda X: X[X.a == 1][['c']])(L.astype({'a': 'bool'}))", "(lambda X: X[X.a == 1].c.sum())(L.astype({'a': 'bool', 'c': 'float64'}))", "(lambda X: X[X.d != 2])(L.astype('bool')).a.sum()",
                      "(lambda X: X[X.a > 1][['c']])(L.replace({'a': {1: 100}}))", "(lambda X: X[X.a > 1].c.sum())(L.clip(0, 1))", "(lambda X: X[X.a > 2][['a']])(L.abs())",
                      "(lambda X: X[X.a == 1].c.sum())(L.where(L.a > 1, 1))", "(lambda X: X[X.b.isna()].a.sum())(L.fillna({'b': 0}))", "(lambda X: X[X.b.isna()].a.sum())(L.round({'b': 0}))"):
             progs.append(Program(text, [srcL], ordered=True, family="F04", note="forms/empty-selection-and-filters-over-elementwise", env_globals={"dx": dx}))
